@@ -17,13 +17,19 @@ import Gotree.Model.C12R
 namespace Gotree.C12
 open Gotree
 
-def cliAlgo (s : String) : Option Algo :=
-  match s.toLower with
+/-- the `case` literals of `switch strings.ToLower(parsimonyAlgo)` -/
+def cliAlgoL (s : String) : Option Algo :=
+  match s with
   | "acctran" => some .acctran
   | "deltran" => some .deltran
   | "downpass" => some .downpass
   | "none" => some .none
   | _ => none
+
+def cliAlgo (s : String) : Option Algo := cliAlgoL s.toLower
+
+/-- the value of `--algo` when the option is not given (flag default of cmd/acr.go and cmd/asr.go) -/
+def cliDefaultAlgo : String := "acctran"
 
 /-- `regexp.MustCompile("\t|,").Split(l, -1)` on the characters of the line -/
 def splitCols : List Char → List (List Char)
